@@ -1055,6 +1055,17 @@ def check_wrk2(ctx, shared=None):
             seen.setdefault('a path of the iteration writes no status',
                             (False, '; '.join(state.notes[-2:])))
             continue
+        # the update proposed by the task is merged verbatim: applied AFTER
+        # the status write, a 'status' entry of the task's own key in it
+        # replaces the status the task returned
+        last_s = max(i for i, e in enumerate(evs) if e.kind == 'S')
+        for pev in evs[last_s + 1:]:
+            if pev.kind == 'P' and call_name(pev.node) in (
+                    'apply', 'update') and not any(
+                        pev.node is e.node for e in s_events):
+                seen.setdefault(
+                    f'{txt(pev.node)[:60]} merges the update of the task '
+                    f'after the status write', (False, pev.where))
         for sev in s_events:
             val = interp.absval(sev.value, state)
             desc = txt(sev.node)[:70]
@@ -1083,7 +1094,13 @@ def check_wrk2(ctx, shared=None):
                                 (None, sev.where))
     for key, (outcome, where) in seen.items():
         ctx.decide('WRK-2', func, key, outcome, at=where or func.where(),
-                   detail=('a malformed result (exception, bad pair, bad '
+                   detail=('Env.apply merges the mapping returned by the '
+                           'task verbatim: a status entry under the task\'s '
+                           'own key overrides the status it returned (a task '
+                           'forwarding the entry of a dependency ends with '
+                           'that dependency\'s status)'
+                           if 'after the status write' in key else
+                           'a malformed result (exception, bad pair, bad '
                            'update) must fail the task: here the status '
                            'proposed by the task (possibly DONE) survives '
                            'the failed validation'
